@@ -1,3 +1,7 @@
+/-
+  C14 helper lemmas, part 2: unfolding lemmas of the scanners, whitespace skipping,
+  quoted-string and token scanning of rendered values.
+-/
 import Mhd.Proofs.AuthStr
 namespace Mhd.Auth
 open Mhd.Gen.Auth
@@ -36,6 +40,8 @@ theorem scanTok_cons (t : Option UInt8) (c : UInt8) (r : Bytes) :
     scanTok t (c :: r) = if c = 44 ∨ c = 32 ∨ c = 9 then .ok ([], c :: r) else if c = 59 then .reject
       else if c = 0 then .reject else (scanTok t r).map fun x => (c :: x.1, x.2) := by
   rw [scanTok.eq_def]
+
+theorem isWs_iff (c : UInt8) : isWs c = true ↔ c = 32 ∨ c = 9 := by simp [isWs]
 
 theorem skipWs_nil : skipWs [] = [] := by rw [skipWs.eq_def]
 theorem skipWs_cons (c : UInt8) (r : Bytes) : skipWs (c :: r) = if isWs c then skipWs r else c :: r := by
